@@ -3,5 +3,7 @@ import obl_phonetic
 
 
 def run(c):
+    import clauses
+    c.only_clauses = clauses.OWN["C10"]
     obl_phonetic.obl_userfiles(c, budget_s=900)
     c.outside("serde_json's own behaviour on malformed bytes (contract: it returns Err or a map); Data::new (bundled files, not per-user files)")
